@@ -12,7 +12,7 @@ import itertools
 import json
 import os
 
-from harness.core import Corr, Disagreement, Failure, coq_eval, zlit, listlit
+from harness.core import Corr, Disagreement, Failure, TieBroken, coq_eval, zlit, listlit
 
 ID = 'C11'
 SRC = 'batch/batch/driver/instance_collection/pool.py'
@@ -52,12 +52,20 @@ BIG = 10 ** 9
 
 # ------------------------------------------------------------------------------------------------ case generation
 
-def _corpus():
-    out = []
+def _corpus_docs():
     for p in sorted(glob.glob(os.path.join(os.path.dirname(__file__), '..', '..', 'corpus', ID, '*.json'))):
         doc = json.load(open(p))
         for c in doc.get('cases', [doc.get('case')] if doc.get('case') else []):
-            out.append([[list(u) for u in c[0]], int(c[1])])
+            yield c
+
+
+def _corpus():
+    """[users, free] cases for _compute_fair_share (caller cases are dicts, see _caller_corpus)"""
+    out = []
+    for c in _corpus_docs():
+        if isinstance(c, dict):
+            continue
+        out.append([[list(u) for u in c[0]], int(c[1])])
     return out
 
 
@@ -174,14 +182,240 @@ def correspond(ctx):
         if m != i:
             dis.append(Disagreement('FairShare.fair_share~PoolScheduler._compute_fair_share', c, m, i))
     dis.sort(key=lambda d: (len(d.case[0]), abs(d.case[1])))
-    return Corr(evaluations=len(cases), distinct_nontrivial=len(distinct),
-                rule='(multiset of (running, ready), free): all multisets of a small grid x free grid + seeded random (<=200 users, <=1e9 mcpu; '
-                     'ties, rounding-boundary and float-boundary styles); non-trivial = at least 2 users and free > 0; the real method '
-                     f'({how}) vs the Gallina model under vm_compute, every user\'s allocation compared',
-                samples=[{'case': c, 'alloc': i} for c, i in list(zip(cases, impl))[-3:] if len(c[0]) <= 8][:3]
-                        or [{'case': cases[0], 'alloc': impl[0]}],
-                disagreements=dis, histograms={'users_per_case': hist}, exhaustive=False,
-                names=['FairShare.fair_share~PoolScheduler._compute_fair_share'])
+    # the caller: model (caller_free, healthy flags, compute_fair_share) vs the real Pool.add_instance + compute_fair_share
+    ccases = _caller_cases(ctx, ctx.scale(600, 6000))
+    cimpl, cinfo = _run_caller_impl(ctx, ccases)
+    cmodel = _run_caller_model(ctx, ccases)
+    cdis = []
+    cdistinct = set()
+    chist = {}
+    for c, m, i in zip(ccases, cmodel, cimpl):
+        if _caller_nontrivial(c):
+            cdistinct.add(_caller_key(c))
+        kinds = set()
+        for st, fl, vo, fr in c['instances']:
+            kinds.add('not-active' if st != 1 else 'unhealthy' if fl >= 2 else 'oversubscribed' if fr < 0 else 'old-version' if vo else 'healthy')
+        for kd in kinds or {'no-instances'}:
+            chist[kd] = chist.get(kd, 0) + 1
+        got = {'free_passed': i['free_passed'], 'healthy': i['healthy'], 'alloc': i['alloc']}
+        if m != got:
+            cdis.append(Disagreement('FairShare.compute_fair_share~PoolScheduler.compute_fair_share', c, m, got))
+    cdis.sort(key=lambda d: (len(d.case['instances']), len(d.case['users'])))
+    csamples = [{'case': c, 'impl': i} for c, i in zip(ccases, cimpl) if _caller_nontrivial(c) and len(c['instances']) <= 4][:2]
+    return Corr(evaluations=len(cases) + len(ccases), distinct_nontrivial=len(distinct) + len(cdistinct),
+                rule='CALLER: (multiset of instances (state, failed requests, version offset, free cores), user list): all multisets of <= 2 '
+                     'instances over a grid + seeded random (<= 40 instances incl. pending/inactive/deleted, >= 2 failed requests, negative '
+                     'free cores, older versions); non-trivial = some instance is not a plain healthy current worker, there is a user and the '
+                     f'schedulable free cores are positive; real Pool.add_instance + PoolScheduler.compute_fair_share ({cinfo.get("loaded_from")}) '
+                     'vs the Gallina model: free amount passed to _compute_fair_share, membership of the healthy set and every allocation compared. '
+                     '|| INNER: '
+                     + _INNER_RULE.format(how=how),
+                samples=csamples + ([{'case': c, 'alloc': i} for c, i in list(zip(cases, impl))[-3:] if len(c[0]) <= 8][:3]
+                                    or [{'case': cases[0], 'alloc': impl[0]}]),
+                disagreements=cdis + dis, histograms={'users_per_case': hist, 'caller_instance_kinds': chist}, exhaustive=False,
+                names=['FairShare.fair_share~PoolScheduler._compute_fair_share',
+                       'FairShare.compute_fair_share~PoolScheduler.compute_fair_share'])
+
+
+_INNER_RULE = ('(multiset of (running, ready), free): all multisets of a small grid x free grid + seeded random (<=200 users, <=1e9 mcpu; '
+               'ties, rounding-boundary and float-boundary styles); non-trivial = at least 2 users and free > 0; the real method '
+               '({how}) vs the Gallina model under vm_compute, every user\'s allocation compared')
+
+
+# ------------------------------------------------------------------------------------------------ the caller: compute_fair_share
+#
+# A caller case is {"instances": [[state, failed_request_count, version_offset, free_cores_mcpu], ...], "users": [[running, ready], ...]}
+# state: 0 pending, 1 active, 2 inactive, 3 deleted; version = INSTANCE_VERSION + version_offset (0 = current worker version).
+
+HEADER_CALLER = ('From HailV Require Import Common.Prelude FairShare.Model FairShare.Caller. Open Scope Z_scope.\n'
+                 'Definition cfs (us : list (Z*Z*Z)) (insts : list inst) := (caller_free insts, (map healthy insts, '
+                 'option_map (map (fun p : (Z*Z*Z)*Z => (fst (fst (fst p)), snd p))) '
+                 '(compute_fair_share (fun u => snd (fst u)) (fun u => snd u) us insts))).')
+
+# The two code fragments FairShare/Caller.v transcribes, as ast.unparse of their statements (docstrings dropped).  Any other
+# shape is outside what the model covers: the tie fails closed and the oracle searches for a concrete input.
+CALLER_SHAPE = {
+    'PoolScheduler.compute_fair_share': (True, ['self'], [
+        'free_cores_mcpu = sum((worker.free_cores_mcpu for worker in self.pool.healthy_instances_by_free_cores))',
+        'return await self._compute_fair_share(free_cores_mcpu)']),
+    'Pool.adjust_for_add_instance': (False, ['self', 'instance'], [
+        'super().adjust_for_add_instance(instance)',
+        "if instance.state == 'active' and instance.failed_request_count <= 1:\n    self.healthy_instances_by_free_cores.add(instance)"]),
+}
+
+
+def _function_shape(repo, qualname):
+    import ast
+    src = open(os.path.join(repo, SRC)).read()
+    node = ast.parse(src)
+    for part in qualname.split('.'):
+        for child in ast.iter_child_nodes(node):
+            if isinstance(child, (ast.FunctionDef, ast.AsyncFunctionDef, ast.ClassDef)) and child.name == part:
+                node = child
+                break
+        else:
+            return None
+    body = [s for s in node.body if not (isinstance(s, ast.Expr) and isinstance(getattr(s, 'value', None), ast.Constant))]
+    return (isinstance(node, ast.AsyncFunctionDef), [a.arg for a in node.args.args], [ast.unparse(s) for s in body])
+
+
+def generate(ctx):
+    """T (shape only, fail closed): compute_fair_share and the guard that fills the healthy set still are the statements
+    that FairShare/Caller.v transcribes.  The values are compared by execution in correspond()."""
+    for q, want in CALLER_SHAPE.items():
+        got = _function_shape(ctx.repo, q)
+        if got is None:
+            raise TieBroken('caller-shape:' + q, f'{q} not found in {SRC}')
+        if got != want:
+            raise TieBroken('caller-shape:' + q, f'{q} is no longer the modelled code: expected {want!r}, found {got!r}')
+
+
+def _caller_corpus():
+    out = []
+    for c in _corpus_docs():
+        if isinstance(c, dict) and 'instances' in c:
+            out.append({'instances': [[int(x) for x in i] for i in c['instances']], 'users': [[int(a), int(b)] for a, b in c['users']]})
+    return out
+
+
+def _caller_small_scope(thorough):
+    """all multisets of <= 2 instances over a grid of (state, failed, version offset, free) x a few user lists"""
+    kinds = [[s, f, v, fr] for s in (0, 1, 2, 3) for f in ((0, 1, 2) if s == 1 else (0, 2)) for v in (0, -1)
+             for fr in ((-3, 0, 5) if s == 1 else (5,))]
+    userlists = [[[0, 4]], [[0, 4], [1, 4]], [[0, 2], [0, 9], [3, 9]]]
+    out = []
+    for k in range(0, 3 if not thorough else 4):
+        for ms in itertools.combinations_with_replacement(kinds, k):
+            if k == 3 and sum(1 for i in ms if i[0] == 1) < 2:
+                continue
+            for us in userlists:
+                out.append({'instances': [list(i) for i in ms], 'users': [list(u) for u in us]})
+    return out
+
+
+def _sched_free(instances, current_only=False):
+    """The oracle's own reading of the instance fields: free cores (negative included) of the workers a job can be sent to:
+    state active and fewer than two failed requests; with current_only also the current worker version (Pool.get_instance)."""
+    t = 0
+    for state, failed, voff, free in instances:
+        if state != 1 or failed >= 2:
+            continue
+        if current_only and voff != 0:
+            continue
+        t += free
+    return t
+
+
+def _random_caller_case(rng):
+    n = rng.choice([0, 1, 1, 2, 2, 3, 4, 6, 10, 40])
+    unit = rng.choice([1, 250, 250, 1000])
+    cores = rng.choice([4, 16, 16, 64]) * (1000 if unit != 1 else 1)
+    old = rng.choice([0, 0, 0, 0.3])
+    insts = []
+    for _ in range(n):
+        state = rng.choice([1, 1, 1, 1, 1, 0, 2, 3])
+        failed = rng.choice([0, 0, 0, 1, 1, 2, 2, 3, 10])
+        voff = rng.choice([-1, -2]) if rng.random() < old else 0
+        free = rng.choice([rng.randint(0, cores // unit) * unit, rng.randint(0, cores // unit) * unit, cores, 0,
+                           -rng.randint(1, cores // unit) * unit, -1, 1, rng.randint(-cores, cores)])
+        insts.append([state, failed, voff, free])
+    sched = _sched_free(insts)
+    every = sum(max(0, i[3]) for i in insts)     # what a tally over all instances would say
+    m = rng.choice([0, 1, 1, 2, 2, 3, 5, 8, 20])
+    style = rng.choice(['hungry', 'hungry', 'around', 'small', 'ties'])
+    users = []
+    for _ in range(m):
+        if style == 'hungry':
+            users.append([rng.choice([0, 0, rng.randint(0, 4) * unit]), rng.choice([max(1, every), 2 ** 40, cores * 3])])
+        elif style == 'around':
+            tgt = max(1, rng.choice([abs(sched), every, abs(sched) + 1]))
+            users.append([rng.choice([0, rng.randint(0, tgt)]), rng.randint(0, max(1, 2 * tgt // max(1, m)))])
+        elif style == 'small':
+            users.append([rng.randint(0, 3), rng.randint(0, 3)])
+        else:
+            users.append([rng.choice([0, unit, 2 * unit]), rng.choice([0, unit, 4 * unit, 16 * unit])])
+    return {'instances': insts, 'users': users}
+
+
+def _caller_cases(ctx, n_random, exhaustive=True):
+    out = _caller_corpus()
+    if exhaustive:
+        out += _caller_small_scope(ctx.thorough)
+    for _ in range(n_random):
+        out.append(_random_caller_case(ctx.rng))
+    return out
+
+
+def _run_caller_impl(ctx, cases):
+    res = []
+    info = {}
+    for i in range(0, len(cases), 4000):
+        r = ctx.run_impl('c11_caller.py', {'cases': cases[i:i + 4000]}, timeout=900)
+        res += r['results']
+        info = {'loaded_from': r['loaded_from'], 'instance_version': r['instance_version']}
+    return res, info
+
+
+def _inst_lit(i):
+    return f'(mkInst {zlit(i[0])} {zlit(i[1])} {zlit(30 + i[2])} {zlit(i[3])})'
+
+
+def _run_caller_model(ctx, cases):
+    """-> [{'free_passed', 'healthy' (indices), 'alloc'}]; the model's current version is 30 + offset (only equality with the
+    pool's current version matters, and caller_free does not look at the version at all)"""
+    exprs = []
+    for c in cases:
+        exprs.append('cfs ' + listlit([f'({i}, {zlit(a)}, {zlit(b)})' for i, (a, b) in enumerate(c['users'])]) + ' '
+                     + listlit([_inst_lit(i) for i in c['instances']]))
+    vals = coq_eval(ctx, HEADER_CALLER, exprs, shard=max(50, min(400, len(exprs) // 16 + 1)), label='caller')
+    out = []
+    for c, v in zip(cases, vals):
+        free, rest = v
+        flags, r = rest
+        if r is None:
+            alloc = 'OutOfFuel'
+        else:
+            d = {a: b for a, b in r[1]}
+            alloc = [d.get(k) for k in range(len(c['users']))]
+        out.append({'free_passed': free, 'healthy': [k for k, b in enumerate(flags) if b], 'alloc': alloc})
+    return out
+
+
+def _caller_key(c):
+    return (tuple(sorted(map(tuple, c['instances']))), tuple(sorted(map(tuple, c['users']))))
+
+
+def _caller_nontrivial(c):
+    """at least one instance outside the healthy set or oversubscribed or of an old version, a user, and positive schedulable cores"""
+    odd = any(i[0] != 1 or i[1] >= 2 or i[3] < 0 or i[2] != 0 for i in c['instances'])
+    return odd and bool(c['users']) and _sched_free(c['instances']) > 0
+
+
+def _check_caller(case, res):
+    """The property on one output of the real compute_fair_share.  'the free cores' of the property are the free cores the
+    scheduler can actually place jobs on, read by the oracle from the instances' own fields."""
+    alloc = res['alloc']
+    users = case['users']
+    sched = _sched_free(case['instances'])
+    if not isinstance(alloc, list):
+        return ('caller-raises', f'compute_fair_share raised {alloc}', 'an allocation')
+    r = _check([users, sched], alloc)
+    if r is not None:
+        if r[0] == 'total-exceeds-free':
+            total = sum(alloc)
+            return ('caller-allocates-unschedulable-cores',
+                    f'compute_fair_share hands out {total} mcpu but the active workers with fewer than two failed requests have only '
+                    f'{sched} mcpu free in total (free amount given to _compute_fair_share: {res.get("free_passed")})', r[2])
+        return ('caller-' + r[0], f'with the schedulable free cores ({sched}) as the free amount: ' + r[1], r[2])
+    placeable = _sched_free(case['instances'], current_only=True)
+    total = sum(alloc)
+    pos = sum(1 for x in alloc if x > 0)
+    if 2 * total > 2 * max(0, placeable) + pos:
+        return ('caller-counts-old-version-workers',
+                f'compute_fair_share hands out {total} mcpu but the healthy active workers of the CURRENT version (the only ones '
+                f'Pool.get_instance returns) have only {placeable} mcpu free; healthy workers of an older version are counted',
+                f'2*sum <= {2 * max(0, placeable) + pos}')
+    return None
 
 
 # ------------------------------------------------------------------------------------------------ oracle
@@ -229,15 +463,45 @@ def oracle(ctx, budget):
         if len(c[0]) >= 2 and c[1] > 0:
             seen.add(_key(c))
     fails.sort(key=lambda t: (t[0], t[1]))
-    return [f for _, _, f in fails], {
-        'evaluations': len(cases), 'distinct_nontrivial': len(seen),
+    # the caller: the same clauses with 'the free cores' = the free cores the scheduler can place jobs on, read from the instances
+    ccases = _caller_cases(ctx, ctx.scale(1500, 15000) * budget, exhaustive=True)
+    cimpl, _ = _run_caller_impl(ctx, ccases)
+    cfails = []
+    cseen = set()
+    for c, r in zip(ccases, cimpl):
+        v = _check_caller(c, r)
+        if v is not None:
+            cfails.append((len(c['instances']), len(c['users']), sum(abs(i[3]) for i in c['instances']),
+                           Failure(v[0], v[1], c, v[2], {'alloc': r['alloc'], 'free_passed': r['free_passed'], 'healthy_set': r['healthy']})))
+        if _caller_nontrivial(c):
+            cseen.add(_caller_key(c))
+    cfails.sort(key=lambda t: t[:3])
+    return [t[-1] for t in cfails] + [f for _, _, f in fails], {
+        'evaluations': len(cases) + len(ccases), 'distinct_nontrivial': len(seen) + len(cseen),
         'rule': 'oracle: <= demand, >= 0, total <= free + half a millicore per served user, work conservation, demand met when covered, '
-                'pairwise max-min (water level) recomputed in Python on the real method output',
-        'samples': [{'case': c, 'alloc': a} for c, a in list(zip(cases, impl)) if 2 <= len(c[0]) <= 5 and c[1] > 3][:2]}
+                'pairwise max-min (water level) recomputed in Python on the real method output; for compute_fair_share the same clauses with '
+                'free = sum of free_cores_mcpu over the fake instances that are active with < 2 failed requests (computed by the oracle from '
+                'the instance fields, not from the pool), plus total <= free cores of those of the current version',
+        'samples': [{'case': c, 'alloc': a} for c, a in list(zip(cases, impl)) if 2 <= len(c[0]) <= 5 and c[1] > 3][:2]
+                   + [{'case': c, 'impl': r} for c, r in zip(ccases, cimpl) if _caller_nontrivial(c) and len(c['instances']) <= 4][:2]}
+
+
+def _replay_caller(ctx, case):
+    case = {'instances': [[int(x) for x in i] for i in case['instances']], 'users': [[int(a), int(b)] for a, b in case['users']]}
+    impl, info = _run_caller_impl(ctx, [case])
+    model = _run_caller_model(ctx, [case])
+    got = {'free_passed': impl[0]['free_passed'], 'healthy': impl[0]['healthy'], 'alloc': impl[0]['alloc']}
+    r = _check_caller(case, impl[0])
+    return {'case': case, 'impl': impl[0], 'model': model[0], 'loaded_from': info.get('loaded_from'), 'agree': got == model[0],
+            'schedulable_free_cores': _sched_free(case['instances']),
+            'schedulable_free_cores_current_version': _sched_free(case['instances'], current_only=True),
+            'property_violation': None if r is None else {'key': r[0], 'what': r[1], 'expected': r[2]}}
 
 
 def replay(ctx, doc):
     case = doc.get('case')
+    if isinstance(case, dict):
+        return _replay_caller(ctx, case)
     case = [[list(u) for u in case[0]], int(case[1])]
     impl, how = _run_impl(ctx, [case])
     model = _run_model(ctx, [case])
